@@ -207,8 +207,8 @@ def dependent (E : Nat) (x : State α) (i : Nat) : α := 1 - sumE E x i
 
 The four dictionaries `leftBCtype`, `leftBC`, `rightBCtype`, `rightBC` are keyed by whatever object was
 passed as `element`.  Keys are modelled as `Option Nat`: `some e` is the name of the e-th independent element
-(names that are not elements of the model get indices ≥ E), `none` is the Python `None` that
-`DiffusionModel.setBC` passes on when it is called without `element`. -/
+(names that are not elements of the model get indices ≥ E), `none` is the Python `None`
+(the default `element` of `DiffusionModel.setBC`, which the repaired code maps to the first independent element). -/
 
 abbrev Key := Option Nat
 
@@ -269,9 +269,20 @@ def setRightBoundaryCondition (s : BCStore α) (t : TypeArg) (v : α) (k : Key) 
 def setRightBoundaryConditionSwapped (s : BCStore α) (t : TypeArg) (v : α) (k : Key) : BCStore α × Bool :=
   setBoundaryCondition s .left t v k
 
-/-- DiffusionModel.setBC: left call, then right call (not reached when the left call raised); `element`
-is passed on unchanged, `None` included. -/
+/-- `element = self.elements[self._getElementIndex(None)]` when `element is None`: the first independent element -/
+def elementKey (k : Key) : Key :=
+  match k with
+  | none => some 0
+  | some e => some e
+
+/-- DiffusionModel.setBC (the repaired code): `element=None` means the first independent element, as for the
+composition setters; then the left call, then the right call (not reached when the left call raised). -/
 def setBC (s : BCStore α) (lt : TypeArg) (lv : α) (rt : TypeArg) (rv : α) (k : Key) : BCStore α × Bool :=
+  let r1 := setBoundaryCondition s .left lt lv (elementKey k)
+  if r1.2 then r1 else setBoundaryCondition r1.1 .right rt rv (elementKey k)
+
+/-- DiffusionModel.setBC as it was before the repair: `element` passed on unchanged, `None` included. -/
+def setBCUnrepaired (s : BCStore α) (lt : TypeArg) (lv : α) (rt : TypeArg) (rv : α) (k : Key) : BCStore α × Bool :=
   let r1 := setBoundaryCondition s .left lt lv k
   if r1.2 then r1 else setBoundaryCondition r1.1 .right rt rv k
 
@@ -296,13 +307,13 @@ def BCOp.writesLeft (k : Key) : BCOp α → Bool
   | .set side t _ k' => decide (side = .left) && t.toBC?.isSome && decide (k = k')
   | .setLeft t _ k' => t.toBC?.isSome && decide (k = k')
   | .setRight _ _ _ => false
-  | .setBC lt _ _ _ k' => lt.toBC?.isSome && decide (k = k')
+  | .setBC lt _ _ _ k' => lt.toBC?.isSome && decide (k = elementKey k')
 
 def BCOp.writesRight (k : Key) : BCOp α → Bool
   | .set side t _ k' => decide (side = .right) && t.toBC?.isSome && decide (k = k')
   | .setLeft _ _ _ => false
   | .setRight t _ k' => t.toBC?.isSome && decide (k = k')
-  | .setBC lt _ rt _ k' => lt.toBC?.isSome && rt.toBC?.isSome && decide (k = k')
+  | .setBC lt _ rt _ k' => lt.toBC?.isSome && rt.toBC?.isSome && decide (k = elementKey k')
 
 /-- BoundaryConditions._setupBoundary for the keys of the E independent elements: `if element not in d: d[element] = v` -/
 def dfill {β : Type} (E : Nat) (d : Key → Option β) (v : β) : Key → Option β := fun j =>
